@@ -62,6 +62,9 @@ class Folder:
             if ch in self.attrs:
                 v = self.attrs[ch]
                 return self.fold(v) if isinstance(v, ast.AST) else v
+            if node.attr in ("real", "imag"):
+                v = self.fold(node.value)
+                return _ew(lambda x: (x.real if node.attr == "real" else x.imag) if isinstance(x, complex) else (x if node.attr == "real" else 0.0), v)
             raise Unfoldable(f"attribute {ch}")
         if isinstance(node, ast.UnaryOp):
             v = self.fold(node.operand)
@@ -88,9 +91,58 @@ class Folder:
             if d is None:
                 raise Unfoldable(f"undecided condition {unparse(node.test)}")
             return self.fold(node.body if d else node.orelse)
+        if isinstance(node, ast.Compare) and len(node.ops) == 1 and isinstance(node.ops[0], (ast.Lt, ast.Gt, ast.LtE, ast.GtE, ast.Eq, ast.NotEq)):
+            a, b = self.fold(node.left), self.fold(node.comparators[0])
+            f = {ast.Lt: lambda x, y: int(x < y), ast.Gt: lambda x, y: int(x > y), ast.LtE: lambda x, y: int(x <= y), ast.GtE: lambda x, y: int(x >= y), ast.Eq: lambda x, y: int(x == y), ast.NotEq: lambda x, y: int(x != y)}[type(node.ops[0])]
+            try:
+                return _ew(f, a, b)
+            except TypeError as exc:
+                raise Unfoldable(str(exc))
+        if isinstance(node, ast.Call) and isinstance(node.func, ast.Attribute) and not (call_name(node) or "").startswith(("torch.", "math.", "np.", "numpy.", "F.", "cmath.")):
+            # method form on a foldable receiver: x.abs(), x.sum(dim=..), x.min(dim=..), x.to(..), x.float()
+            m = node.func.attr
+            if m in ("to", "float", "int", "long", "double", "type", "clone", "contiguous", "item", "detach"):
+                return self.fold(node.func.value)
+            if m in ("abs", "sum", "prod", "min", "max", "sign", "tanh", "sqrt", "exp", "argmin", "argmax", "amin", "amax"):
+                fake = ast.Call(func=ast.Attribute(value=ast.Name(id="torch", ctx=ast.Load()), attr=m, ctx=ast.Load()), args=[node.func.value] + list(node.args), keywords=list(node.keywords))
+                return self.fold(fake)
+            raise Unfoldable(f"method {m}")
         if isinstance(node, ast.Call):
             nm = call_name(node) or ""
             short = nm.split(".")[-1]
+            if short in ("tanh", "arctanh", "atanh", "sign", "log2", "log") and node.args:
+                fn = {"tanh": math.tanh, "arctanh": math.atanh, "atanh": math.atanh, "sign": lambda x: (x > 0) - (x < 0), "log2": lambda x: cmath.log(x) / math.log(2) if isinstance(x, complex) or x <= 0 else math.log2(x), "log": lambda x: cmath.log(x) if isinstance(x, complex) or x <= 0 else math.log(x)}[short]
+                try:
+                    return _ew(fn, self.fold(node.args[0]))
+                except (ValueError, TypeError) as exc:
+                    raise Unfoldable(str(exc))
+            if short in ("sum", "prod", "amin", "amax", "argmin", "argmax") and node.args:
+                v = self.fold(node.args[0])
+                if isinstance(v, list) and v and not any(isinstance(x, list) for x in v):
+                    if short == "sum":
+                        return sum(v)
+                    if short == "prod":
+                        out = 1
+                        for x in v:
+                            out = out * x
+                        return out
+                    if short in ("amin", "amax"):
+                        return (min if short == "amin" else max)(v)
+                    return v.index((min if short == "argmin" else max)(v))
+                if not isinstance(v, list):
+                    return v
+                raise Unfoldable("nested reduction")
+            if short in ("min", "max") and len(node.args) == 1 and all(k.arg in ("dim", "keepdim") for k in node.keywords):
+                v = self.fold(node.args[0])
+                if isinstance(v, list) and v and not any(isinstance(x, list) for x in v):
+                    val = (min if short == "min" else max)(v)
+                    return [val, v.index(val)] if node.keywords else val
+            if short == "pow" and len(node.args) == 2:
+                a, b = self.fold(node.args[0]), self.fold(node.args[1])
+                try:
+                    return _ew(lambda x, y: x**y, a, b)
+                except (TypeError, ZeroDivisionError, OverflowError) as exc:
+                    raise Unfoldable(str(exc))
             if short in ("tensor", "as_tensor", "Tensor", "array", "float", "int") and node.args:
                 return self.fold(node.args[0])
             if short in ("cos", "sin", "sqrt", "exp", "abs") and node.args:
